@@ -22,12 +22,13 @@
  * <dims> carries 0 for an unlimited dimension exactly as handed to HMCcreate.
  *
  * Implementation-side oracles (no model involved): the element read through Hseek/Hread equals a shadow flat byte
- * array (fill pattern where never written) under random aligned in-range writes/reads, small cache sizes
+ * array (fill pattern where never written) under random writes/reads at any byte position, small cache sizes
  * (HMCsetMaxcache 1..3), Hendaccess and Hclose/Hopen; element->(chunk,seek) is injective and in range (exhaustive
  * per case when the element is small); array<->chunk round trip; walk pieces tile [pos,pos+len).
- * "Quirk" cases (12%) leave the theorems' precondition (unaligned positions, transfers past the end): the model tie shows
- * that the model reproduces the library byte for byte there, and the SAME byte-array oracle stays on under the keys
- * chunk-unaligned-access / chunk-write-past-end (two real deviations of hchunks.c from a byte array, see REPORT.md).
+ * Unaligned byte positions and lengths are ordinary traffic (the loops honour elem_off = posn % nt_size). "Quirk" cases
+ * (12%) add seeks/transfers past the end and negative arguments: a write that does not fit must FAIL and change nothing,
+ * reads are clamped. The byte-array oracle is on everywhere; the two repaired defects keep their keys
+ * chunk-unaligned-access / chunk-write-past-end so that a regression is reported as a VIOLATION.
  */
 #include "hdf.h"
 #include "hk.h"
@@ -82,7 +83,8 @@ static int32 pick_chunk(int32 d, int maxc)
 }
 
 /* exhaustive mode (argv[4] == "exh"): case k enumerates EVERY chunk shape (chunk length 1..extent+1, i.e. including one
- * that exceeds the dimension) of every extent <= 4 (rank 1), <= 4x4 (rank 2) and <= 3x3x2 (rank 3); nt cycles 1,2,4 */
+ * that exceeds the dimension) of every extent <= 4 (rank 1), <= 4x4 (rank 2) and <= 3x3x2 (rank 3), each with nt 1,2,4
+ * (case k: geometry k/3, nt by k%3) */
 static int exh = 0;
 #define EXH_TOTAL (14 + 14 * 14 + 9 * 9 * 5)
 static int exh_pair(int idx, int maxd, int32 *d, int32 *c)
@@ -95,8 +97,8 @@ static int exh_pair(int idx, int maxd, int32 *d, int32 *c)
 static void gen_geometry_exh(int k)
 {
     static const int NT[] = {1, 2, 4};
-    int g = k % EXH_TOTAL;
-    nt = NT[(k / EXH_TOTAL) % 3];
+    int g = (k / 3) % EXH_TOTAL;
+    nt = NT[k % 3];
     if (g < 14) { rank = 1; exh_pair(g, 4, &ed[0], &gc[0]); }
     else if (g < 14 + 196) { g -= 14; rank = 2; exh_pair(g / 14, 4, &ed[0], &gc[0]); exh_pair(g % 14, 4, &ed[1], &gc[1]); }
     else { g -= 210; rank = 3; exh_pair(g / 45, 3, &ed[0], &gc[0]); exh_pair(g / 5 % 9, 3, &ed[1], &gc[1]); exh_pair(g % 5, 2, &ed[2], &gc[2]); }
@@ -275,14 +277,17 @@ static void unit_ops(void)
 static void walk_op(int32 pos, int32 len, int check)
 {
     int32 sbi[MAXR], spb[MAXR];
-    int32 relative_posn = pos, bytes_read = 0, read_len = len, chunk_num, chunk_size, read_seek;
+    int32 relative_posn = pos, bytes_read = 0, read_len = len, chunk_num, chunk_size, read_seek, elem_off;
     int   first = 1, guard = 0;
     HDR("walk"); printf("%d %d %d => ", nt, (int)pos, (int)len);
     update_chunk_indices_seek(pos, rank, nt, sbi, spb, dd);
     while (bytes_read < read_len) {
         calculate_chunk_num(&chunk_num, rank, sbi, dd);
-        calculate_chunk_for_chunk(&chunk_size, rank, nt, read_len, bytes_read, sbi, spb, dd);
+        elem_off = relative_posn % nt; /* as in the HMCPread/HMCPwrite loops: a transfer may start inside an element */
+        calculate_chunk_for_chunk(&chunk_size, rank, nt, read_len + elem_off, bytes_read, sbi, spb, dd);
+        chunk_size -= elem_off;
         calculate_seek_in_chunk(&read_seek, rank, nt, spb, dd);
+        read_seek += elem_off; /* chk_dptr += read_seek + elem_off */
         if (chunk_size <= 0 || ++guard > 100000) break; /* the library would not terminate */
         printf(first ? "%d:%d:%d:%d" : ",%d:%d:%d:%d", (int)relative_posn, (int)chunk_num, (int)read_seek, (int)chunk_size);
         first = 0;
@@ -302,7 +307,7 @@ static void walk_ops(void)
 {
     int n = (int)hk_range(2, 5);
     for (int t = 0; t < n; t++) {
-        int32 pos = pick_pos(1), len;
+        int32 pos = pick_pos(hk_chance(60)), len;
         long  row = (long)gc[rank - 1] * nt, room = total_bytes - pos;
         switch ((int)hk_range(0, 5)) {
             case 0: len = (int32)room; break;
@@ -315,12 +320,12 @@ static void walk_ops(void)
         if (len < 1) len = 1;
         walk_op(pos, len, 1);
     }
-    if (exh) { /* every element-aligned start and every length that stays inside the element */
-        for (int32 pos = 0; pos < total_bytes; pos += nt)
+    if (exh) { /* every start (aligned or not) and every length that stays inside the element */
+        for (int32 pos = 0; pos < total_bytes; pos++)
             for (int32 len = 1; len <= total_bytes - pos; len++) walk_op(pos, len, 1);
         hk_stat("exh_geometries", 1);
     }
-    if (hk_chance(25)) { /* outside the precondition: unaligned start and/or past the end; model tie only */
+    if (hk_chance(25)) { /* past the end (the bare walk wraps there; HMCPwrite refuses, HMCPread clamps): model tie only */
         int32 pos = pick_pos(0) + (hk_chance(30) ? (int32)total_bytes : 0);
         walk_op(pos, (int32)hk_range(1, total_bytes + 8), 0);
     }
@@ -329,7 +334,7 @@ static void walk_ops(void)
 /* ------------------------------------------------------------------ API level */
 static int32      fid = FAIL, aid = FAIL;
 static const char *path;
-static int         quirk; /* generate operations outside the theorems' precondition (unaligned, past the end) */
+static int         quirk; /* also generate seeks/transfers past the end and negative arguments */
 #define TAG 1020
 #define REF 2
 
@@ -369,16 +374,20 @@ static void api_write(int32 len)
     int32 r = Hwrite(aid, len, wbuf);
     printf("T chunk api_write "); hk_hex(wbuf, (size_t)len); printf(" => ");
     if (r == FAIL) printf("fail\n"); else printf("%d %d\n", (int)r, (int)cur_posn());
-    if (pos % nt == 0 && pos + len <= total_bytes) {
-        if (r != len) { hk_fail("chunk-api-write", "Hwrite(%d)@%d = %d", (int)len, (int)pos, (int)r); return; }
+    if (pos + len <= total_bytes) { /* fits: any start position, any length */
+        if (r != len) { hk_fail(pos % nt ? "chunk-unaligned-access" : "chunk-api-write", "Hwrite(%d)@%d = %d (nt_size %d)", (int)len, (int)pos, (int)r, nt); return; }
         memcpy(shadow + pos, wbuf, (size_t)len);
+        if (pos % nt) verify_whole("chunk-unaligned-access", "Hwrite", pos, len);
         return;
     }
-    /* outside the precondition: a flat byte array takes the bytes that fall inside it and nothing else changes
-       (a write that is refused changes nothing) */
-    if (r != FAIL)
+    /* does not fit into the fixed-size element: must be refused, and whatever the return value nothing outside
+       [pos, pos+len) may change (a flat byte array would take the bytes that fall inside it) */
+    if (r != FAIL) {
+        hk_fail("chunk-write-past-end", "Hwrite(%d)@%d on an element of %ld bytes returned %d, not FAIL", (int)len, (int)pos, total_bytes, (int)r);
         for (int i = 0; i < len && pos + i < total_bytes; i++) shadow[pos + i] = wbuf[i];
-    verify_whole(pos + len > total_bytes ? "chunk-write-past-end" : "chunk-unaligned-access", "Hwrite", pos, len);
+    }
+    else if (cur_posn() != pos) hk_fail("chunk-write-past-end", "refused Hwrite moved posn %d -> %d", (int)pos, (int)cur_posn());
+    verify_whole("chunk-write-past-end", "Hwrite", pos, len);
 }
 static void api_read(int32 len)
 {
@@ -450,9 +459,9 @@ static void api_ops(void)
         int   act  = (int)hk_range(0, 99);
         if (act < 8) { if (api_reopen(0) < 0) return; continue; }
         if (!quirk) {
-            /* choose where: stay if the current position is aligned and inside, else seek */
-            if (posn % nt != 0 || posn >= total_bytes || hk_chance(70)) {
-                int32 to = pick_pos(1);
+            /* choose where: stay if the current position is inside, else seek (any byte position, 35% unaligned) */
+            if (posn >= total_bytes || hk_chance(70)) {
+                int32 to = pick_pos(hk_chance(65));
                 int   origin = (int)hk_range(0, 9);
                 if (origin == 1) api_seek(to - posn, DF_CURRENT);
                 else if (origin == 2) api_seek(to - (int32)total_bytes, DF_END);
@@ -465,7 +474,7 @@ static void api_ops(void)
             else api_read(pick_len(posn));
         }
         else {
-            /* outside the precondition: unaligned, past the end, negative */
+            /* anything goes: unaligned, past the end, negative */
             switch ((int)hk_range(0, 5)) {
                 case 0: api_seek((int32)hk_range(-4, total_bytes + 2 * nt), DF_START); break;
                 case 1: api_seek((int32)hk_range(-(long)posn - 2, 6), DF_CURRENT); break;
@@ -520,8 +529,8 @@ static void run_case(int k)
     if (aid != FAIL && api_reopen(1) == 0) {
         api_seek(0, DF_START);
         api_read((int32)total_bytes);
-        /* and once more in pieces from random aligned places */
-        for (int t = 0; t < 3; t++) { int32 to = pick_pos(1); api_seek(to, DF_START); api_read(pick_len(to)); }
+        /* and once more in pieces from random places */
+        for (int t = 0; t < 3; t++) { int32 to = pick_pos(hk_chance(60)); api_seek(to, DF_START); api_read(pick_len(to)); }
     }
     if (aid != FAIL) Hendaccess(aid);
     if (fid != FAIL && Hclose(fid) == FAIL) hk_fail("chunk-api-close", "final Hclose");
